@@ -3,14 +3,15 @@ From Coq Require Import List NArith ZArith Bool.
 Import ListNotations.
 From Mos Require Import model.I64 Gen.BinOps model.Expr Gen.OpcodeTable spec.Isa model.Encode.
 From Mos Require Import model.SymTab Gen.CodegenConsts model.Segment model.Asm spec.FixedPoint proofs.AsmLift proofs.AsmProofs
-  proofs.SegmentProofs.
+  proofs.SegmentProofs proofs.AsmSim proofs.AsmWitnesses.
 Open Scope Z_scope.
 
-(* A pass is a function of the tokens and the context it starts from (symbol table, segment options, pass index):
-   equal starts give equal images, diagnostics and end tables. *)
-Theorem C02_pass_deterministic : forall fuel toks c c' r r',
-  c = c' -> run_pass fuel toks c = r -> run_pass fuel toks c' = r' -> r = r'.
-Proof. exact pass_deterministic. Qed.
+(* A pass is a function of the tokens and of the non-ghost part of the context it starts from (symbol table, undefined
+   set, segments, scope, counters): contexts that agree on it give equal diagnostics and end contexts that agree on it
+   again -- in particular equal images and end tables; the ghost log and counters are never read. *)
+Theorem C02_pass_deterministic : forall fuel toks c c',
+  E c c' -> pass_rel (run_pass fuel toks c) (run_pass fuel toks c').
+Proof. exact run_pass_core. Qed.
 Print Assumptions C02_pass_deterministic.
 
 (* Table-write invariant, for every token at every fuel (labels, blocks, instructions, data, `* =`, .align, const/var,
@@ -77,6 +78,15 @@ Theorem C02_vice_exact : forall c p v,
 Proof. exact vice_exact. Qed.
 Print Assumptions C02_vice_exact.
 
+(* Guarded by the known finding: when the final table holds no symbol left over from an earlier pass, every label of
+   the VICE list was written by the last pass (so, by C02_fixed_point, with the address of its statement). *)
+Theorem C02_vice_current : forall c p v,
+  Known_stale_symbol_survives c = false -> In (p, v) (vice_symbols c) ->
+  exists nx s, In (p, nx, s) (all (symbols c)) /\ s_ty s = TyLabel /\ s_data s = SDNum v /\
+               (Nat.ltb (s_pass s) (pass_idx c) = false \/ s_span s = None).
+Proof. exact vice_current. Qed.
+Print Assumptions C02_vice_current.
+
 (* ---- non-vacuity ---- *)
 Definition sp (a b : Z) : span := (a, b).
 Definition t_fwd : text := [102; 119; 100]%N.
@@ -107,3 +117,13 @@ Example C02_example_shadowed_forward_reference :
   exists c, codegen 10 10 default_options prog_shadow = Done c /\ no_silent_change c /\
             map snd (segment_image c) = [[234; 173; 4; 32; 234]%N].
 Proof. eexists. vm_compute. repeat split. Qed.
+
+(* Known finding F-C02d (Known_stale_symbol_survives): a macro invoked before its definition recycles the `$macro_0` scope of
+   another macro's invocation in an earlier pass; the label left there shadows the outer one and survives in the table.
+   `.define segment {..} / m1() / .macro m0() { sh: nop } / .macro m1() { lda sh } / m0() / sh: nop` -> AD 00 20 EA EA *)
+Theorem C02_stale_symbol_survives_refuted :
+  exists toks c, codegen 10 10 default_options toks = Done c /\ no_silent_change c /\
+                 Known_stale_symbol_survives c = true /\
+                 map snd (segment_image c) = [[173; 0; 32; 234; 234]%N] /\ In ([[115; 104]%N], 8196) (vice_symbols c).
+Proof. exact stale_symbol_witness. Qed.
+Print Assumptions C02_stale_symbol_survives_refuted.
